@@ -211,7 +211,17 @@ example :
         [0, 0, 0, 0, 1, 2, 3, 4, 5, 6, 7, 8, 9, 10, 11, 12, 104, 104, 33, 69, 13, 186, 3] false [1]
       = { res := .err .auth, leak := false } := by decide
 
-/-! ### 4. Which key reaches `open`: another secret / salt / host binding -/
+/-! ### 4. Which key reaches `open`: another secret / salt / host binding
+
+Full-strength statement of the property's clause (NOT provable, see `other_key_full_false` /
+`key_concat_collision` below — known finding KF-C05-1):
+
+    ∀ s₁ s₂, (s₁.secret ≠ s₂.secret ∨ s₁.salt ≠ s₂.salt) →
+      the key handed to `open` by a filespace with settings s₂ differs from the sealing key of s₁
+      (and hence, by authenticity of the AEAD, the read is an error)
+
+`other_key` is its `_partial` form: the same conclusion under the negated defect predicate
+`secret₁ ++ host₁ ++ salt₁ ≠ secret₂ ++ host₂ ++ salt₂`. -/
 
 /-- A filespace whose `secret ++ host? ++ salt` differs from the writer's hands a DIFFERENT key (provided `H`
 does not collide on these two inputs) to `open`, together with the writer's nonce and sealed text; the
@@ -271,7 +281,7 @@ theorem key_concat_collision :
   exact roundtrip a hl H k wp rp _ ent chunks sizes hent
 
 /-- Hence the unrestricted claim "settings with another secret or salt have other key material" is false. -/
-theorem other_key_unrestricted_false :
+theorem other_key_full_false :
     ¬ ∀ (host : Bytes) (s₁ s₂ : Settings), (s₁.secret ≠ s₂.secret ∨ s₁.salt ≠ s₂.salt) →
         keyMaterial host s₁ ≠ keyMaterial host s₂ := by
   intro h
